@@ -98,6 +98,11 @@ CFG = {
         "Swat4.C07.parse_total",
         "Swat4.C07.expand_total",
         "Swat4.C07.facts_ok",
+        # the driver's finite stand-in for a flooding responder (Drv/C07 `ds ++ ds ++ ds`) is exact
+        "Swat4.C07.flood_stabilises",
+        "Swat4.C07.flood_three_suffice",
+        "Swat4.C07.flood_single_stabilises",
+        "Swat4.C07.flood_one_pass_not_enough",
         "Swat4.C07.details_facts_ok",
         # detailsOf_total is no longer audited: DetailsProbe.Outcome has exactly the three constructors it lists, so it holds of any
         # function into that type (proof = cases); it stays in the file because probe_classes cites it. probe_total stays: ProbeResult
